@@ -83,7 +83,10 @@ impl<'a> G<'a> {
             // appends to the list it iterates over would grow it geometrically with the nesting
             4 => tag("lappend", vec![ts("l"), self.expr(1)]),
             5 => {
-                if in_loop && self.rng.chance(1, 2) {
+                if in_loop && in_proc && self.rng.chance(1, 3) {
+                    // a return from inside a loop of a procedure: it ends the loop and the call
+                    tag("return", vec![self.expr(1)])
+                } else if in_loop && self.rng.chance(1, 2) {
                     if self.rng.chance(1, 2) { tag("break", vec![]) } else { tag("continue", vec![]) }
                 } else if in_proc && !in_loop && self.rng.chance(1, 6) {
                     // a stray break/continue: escaping the procedure body it becomes an error
@@ -241,17 +244,11 @@ fn rstmt(st: &Term, ind: usize) -> String {
 
 const INIT: &str = "set x 1; set y 2; set z 0; set w -1; set l {}; set m {3 4}; set a {}; set b {}";
 
-pub fn mk(rng: &mut Rng, depth: usize) -> Term {
-    let mut g = G { rng, counter: 0, procs: Vec::new() };
-    // procedures: params p0..pk, own locals initialised from the prelude of the body
-    let np = g.rng.below(3);
+/// the case for a program given as procedures (name, parameters, body) and a main block
+fn assemble(procs_in: &[(String, Vec<String>, Term)], main: &Term) -> Term {
     let mut procs = Vec::new();
     let mut text = String::new();
-    for i in 0..np {
-        let ar = g.rng.below(3);
-        let name = format!("p{}", i);
-        let body = g.block(depth, false, true);
-        let params: Vec<String> = (0..ar).map(|k| ["x", "y"][k].to_string()).collect();
+    for (name, params, body) in procs_in {
         // locals not bound by parameters get fixed initial values
         let mut init = String::new();
         for v in ["x", "y", "z", "w"].iter() {
@@ -260,13 +257,11 @@ pub fn mk(rng: &mut Rng, depth: usize) -> Term {
             }
         }
         init.push_str("  set l {}\n  set m {}\n  set a {}\n  set b {}\n");
-        text.push_str(&format!("proc {} {{{}}} {{\n{}{}}}\n", name, params.join(" "), init, rblock(&body, 2)));
-        procs.push(tl(vec![ts(&name), tstrs(&params), body]));
-        g.procs.push((name, ar));
+        text.push_str(&format!("proc {} {{{}}} {{\n{}{}}}\n", name, params.join(" "), init, rblock(body, 2)));
+        procs.push(tl(vec![ts(name), tstrs(params), body.clone()]));
     }
-    let main = g.block(depth, false, false);
-    text.push_str(&rblock(&main, 0));
-    let tree = tl(vec![tl(procs), main]);
+    text.push_str(&rblock(main, 0));
+    let tree = tl(vec![tl(procs), main.clone()]);
     tl(vec![
         ti(0),
         tstrs(&[INIT, &text]),
@@ -275,15 +270,84 @@ pub fn mk(rng: &mut Rng, depth: usize) -> Term {
     ])
 }
 
+pub fn mk(rng: &mut Rng, depth: usize) -> Term {
+    let mut g = G { rng, counter: 0, procs: Vec::new() };
+    // procedures: params p0..pk, own locals initialised from the prelude of the body
+    let np = g.rng.below(3);
+    let mut procs: Vec<(String, Vec<String>, Term)> = Vec::new();
+    for i in 0..np {
+        let ar = g.rng.below(3);
+        let name = format!("p{}", i);
+        let body = g.block(depth, false, true);
+        let params: Vec<String> = (0..ar).map(|k| ["x", "y"][k].to_string()).collect();
+        procs.push((name.clone(), params, body));
+        g.procs.push((name, ar));
+    }
+    let main = g.block(depth, false, false);
+    assemble(&procs, &main)
+}
+
+/// every loop construct x every way of leaving it from inside a procedure (return, break,
+/// continue, return -code break / continue), unconditionally and in one iteration only
+fn directed() -> Vec<Term> {
+    let mut out = Vec::new();
+    let exits: Vec<Term> = vec![
+        tag("return", vec![lit(9)]),
+        tag("break", vec![]),
+        tag("continue", vec![]),
+        tag("retbreak", vec![]),
+        tag("retcont", vec![]),
+    ];
+    for lk in 0..7 {
+        for (ei, exit) in exits.iter().enumerate() {
+            for conditional in &[false, true] {
+                // user-defined control commands act on the CALLER's loop: they are called from a helper
+                let helper = ei >= 3;
+                let loopvar = if lk <= 2 { var("a") } else { var("c1") };
+                let leave: Term = if helper { tag("call", vec![ts("w"), ts("p1"), tl(vec![])]) } else { exit.clone() };
+                let guarded: Term = if *conditional {
+                    tag("if", vec![tl(vec![tl(vec![bin("==", loopvar.clone(), lit(2)), tl(vec![leave])])]), tl(vec![]), ti(0)])
+                } else {
+                    leave
+                };
+                let body = tl(vec![tag("rec", vec![ti(1), tl(vec![loopvar.clone()])]), guarded, tag("rec", vec![ti(2), tl(vec![loopvar.clone()])])]);
+                let lp = match lk {
+                    0 => tag("foreach", vec![tl(vec![ts("a")]), tag("llit", vec![tl(vec![ti(1), ti(2), ti(3)])]), body]),
+                    1 => tag("foreach", vec![tl(vec![ts("a"), ts("b")]), tag("llit", vec![tl(vec![ti(1), ti(5), ti(2), ti(6), ti(3)])]), body]),
+                    2 => tag("foreach", vec![tl(vec![ts("a"), ts("b"), ts("z")]), tag("llit", vec![tl(vec![ti(1), ti(5), ti(7), ti(2)])]), body]),
+                    3 => tag("while", vec![ts("c1"), ti(3), body]),
+                    4 => tag("whilec", vec![ts("c1"), ti(3), body]),
+                    5 => tag("for", vec![ts("c1"), ti(3), body]),
+                    _ => tag("catch", vec![tl(vec![tag("while", vec![ts("c1"), ti(3), body])])]),
+                };
+                let p0 = tl(vec![lp, tag("rec", vec![ti(3), tl(vec![var("x")])]), tag("return", vec![lit(5)])]);
+                let mut procs = vec![("p0".to_string(), Vec::<String>::new(), p0)];
+                if helper {
+                    procs.push(("p1".to_string(), Vec::<String>::new(), tl(vec![tag("rec", vec![ti(4), tl(vec![lit(0)])]), exit.clone()])));
+                }
+                let main = tl(vec![tag("call", vec![ts("y"), ts("p0"), tl(vec![])]), tag("rec", vec![ti(5), tl(vec![var("y")])])]);
+                out.push(assemble(&procs, &main));
+            }
+        }
+    }
+    out
+}
+
 pub fn gen(tier: &str, seed: u64) -> Gen {
     let mut rng = Rng::new(seed);
     let mut cases = Vec::new();
     let n = if tier == "thorough" { 200_000 } else { 2000 };
+    let dir = directed();
+    let nd = dir.len();
+    cases.extend(dir);
     for _ in 0..n {
         let d = 1 + rng.below(3);
         cases.push(mk(&mut rng, d));
     }
-    (cases, vec![("random structured programs (set/incr/expr/if/while/for/foreach/catch/proc) to nesting depth 3".to_string(), n, false)])
+    (cases, vec![
+        ("every loop construct (foreach with 1-3 variables, while, while through a command substitution, for, a loop under catch) x every way of leaving it from inside a procedure (return, break, continue, return -code break / continue from a helper), unconditionally and in one iteration only".to_string(), nd, true),
+        ("random structured programs (set/incr/expr/if/while/for/foreach/catch/proc) to nesting depth 3".to_string(), n, false),
+    ])
 }
 
 pub fn run(case: &Term) -> Term {
